@@ -229,6 +229,18 @@ let model_encode (c : case) (caps : int list) (fills : int list) : mres =
         else go rest (index + 1) in
     go steps 0
 
+(* call-count probe: cut the capacity list to exactly the number of calls the model needs (or one fewer) and append a
+   capacity 3.  The facade reuses the last capacity until completion, so one encode call too many panics
+   ("target buffer too small"): the NUMBER of calls becomes observable through ENC. *)
+let probe_case (r : rng) (c : case) : case =
+  if not (chance r 20) || L.exists (fun x -> x < 4) c.caps then c
+  else match model_encode c c.caps c.fills with
+    | MOk (_, k) ->
+      let ncaps = L.length c.caps in
+      let k' = if k >= 2 && chance r 30 then k - 1 else k in
+      { c with caps = L.init k' (fun i -> L.nth c.caps (min i (ncaps - 1))) @ [3] }
+    | _ -> c
+
 (* ---------- one case ---------- *)
 let short s = if String.length s > 600 then String.sub s 0 600 ^ "...(" ^ string_of_int (String.length s) ^ " chars)" else s
 
@@ -243,6 +255,7 @@ let run_case (h : harness) (c : case) (dist : (string, int) Hashtbl.t) : (string
   let fail k sigx detail = fails := (k, tag ^ "/" ^ sigx, detail) :: !fails in
   let is_valid = ValidC2S.valid c.v c.res c.pkt && L.for_all (fun x -> x >= 4) c.caps in
   bump dist (if is_valid then "valid" else "not-valid");
+  if L.exists (fun x -> x < 4) c.caps && L.length c.caps >= 2 then bump dist "call-count-probe";
   let calls = (match m with MOk (_, k) -> k | _ -> 1) in
   let subid = (match c.pkt, c.v with Subscribe s, V5 when s.s_subid <> None -> true | _ -> false) in
   (* 1. tie: model = implementation *)
@@ -321,7 +334,7 @@ let main (seed : int) (count : int) (harness_path : string) (corpus : string lis
   let ncorpus = L.length corpus_cases in
   let left = ref corpus_cases in
   for i = 1 to count + ncorpus do
-    let c = (match !left with x :: tl -> left := tl; x | [] -> gen_case r) in
+    let c = (match !left with x :: tl -> left := tl; x | [] -> probe_case r (gen_case r)) in
     let (f, calls, interesting) = run_case h c dist in
     events := !events + calls;
     bump dist (if calls >= 2 then "calls:2+" else "calls:1");
